@@ -16,6 +16,7 @@ func checkC07(c *Ctx) {
 	c.runWireGen("AlphaFull", c.pick(3, 3), asp, c.pick(3, 12), "streams over the full alphabet")
 	c.runWireGen("AlphaSmall", c.pick(4, 5), asp, c.pick(4, 6), "longer streams over the reduced alphabet")
 	c.runWireProducer(c.pick(1500, 20000), "real encodings")
+	c.runExactEncodingsIntoPlain(c.pick(4000, 100000))
 }
 
 // C08 - malformed or truncated encodings are reported, never absorbed or fatal
